@@ -107,7 +107,15 @@ M_C15(cfg, meta, pre, r, post, g) ==
      /\ post.hitsS = pre.hitsS + (IF hit THEN 1 ELSE 0)
      /\ post.missS = pre.missS + (IF hit THEN 0 ELSE 1)
 
-WrapperMonitorIds == {"C01", "C03", "C09", "C10", "C11", "C14", "C15"}
+\* C20: a call that was suspended inside its body and is resumed stores its result normally -
+\* against the state as it is NOW - and a result that is not to be stored changes nothing
+M_C20(cfg, meta, pre, r, post, g) ==
+  (r.ev = "fin" /\ "task" \in DOMAIN r /\ r.task # "" /\ ~r.panic) =>
+     IF ShouldStore(meta, r)
+     THEN Stored(r, post) \/ MayVanish(cfg, pre, EngEvent(meta, r))
+     ELSE post = pre
+
+WrapperMonitorIds == {"C01", "C03", "C09", "C10", "C11", "C14", "C15", "C20"}
 
 WMonitor(id, cfg, meta, pre0, r, post, g) ==
   LET pre == WithGhostAges(pre0, g) IN
@@ -118,6 +126,7 @@ WMonitor(id, cfg, meta, pre0, r, post, g) ==
     [] id = "C11" -> M_C11(cfg, meta, pre, r, post, g)
     [] id = "C14" -> M_C14(cfg, meta, pre, r, post, g)
     [] id = "C15" -> M_C15(cfg, meta, pre, r, post, g)
+    [] id = "C20" -> M_C20(cfg, meta, pre0, r, post, g)
 
 -----------------------------------------------------------------------------
 (* invalidation registry (C12 / C13) over ALL caches of a run                *)
